@@ -428,6 +428,39 @@ pub fn random_run<W: Write>(tr: &mut Trace<W>, cfg: Cfg, prof: &Profile, seed: u
             tr.step(&mut sim, "EmitS", json!({"t": "SMap", "id": next_id, "mode": "all", "to": "none", "e": ents[0]}));
             tr.step(&mut sim, "SrvFrame", json!({"tick": true, "dt": 0}));
         }
+        if !prof.events && !prof.pre && ents.len() >= 2 && rng.chance(1, 30) {
+            // an acknowledgement arrives after one of the entities of the acknowledged message has gone
+            // (despawned, un-marked or hidden) - the others must still be confirmed
+            let c = rng.pick(&clients).clone();
+            let ci = sim.ci(&c);
+            let live: Vec<String> = ents.iter().filter(|x| sim.op_enabled("Mutate", &json!({"e": x, "k": "A"}))).cloned().collect();
+            if sim.clients[ci].entity.is_some() && live.len() >= 2 && !(prof.rel && prof.clean) {
+                tr.sync(&mut sim);
+                for x in &live {
+                    tr.step(&mut sim, "Mutate", json!({"e": x, "k": "A"}));
+                }
+                tr.step(&mut sim, "SrvFrame", json!({"tick": true, "dt": 0}));
+                while sim.channel_len(&c, "s2c", CH_MUT) > 0 {
+                    tr.step(&mut sim, "DeliverMut", json!({"c": c, "pos": 0}));
+                }
+                tr.step(&mut sim, "CliFrame", json!({"c": c, "dt": 0}));
+                let gone = rng.pick(&live).clone();
+                let how = rng.below(3);
+                if how == 0 && prof.vis {
+                    tr.step(&mut sim, "SetVis", json!({"c": c, "e": gone, "v": false}));
+                } else if how == 1 && prof.marks {
+                    tr.step(&mut sim, "Unmark", json!({"e": gone}));
+                } else {
+                    tr.step(&mut sim, "Despawn", json!({"e": gone}));
+                }
+                tr.step(&mut sim, "SrvFrame", json!({"tick": true, "dt": 0}));
+                while sim.channel_len(&c, "c2s", CH_ACK) > 0 {
+                    tr.step(&mut sim, "DeliverAck", json!({"c": c}));
+                }
+                tr.step(&mut sim, "SrvFrame", json!({"tick": rng.chance(1, 2), "dt": 0}));
+                continue;
+            }
+        }
         if prof.sess && !prof.events && rng.chance(1, 25) {
             // a client leaves while a mutate message is buffered for an update message it never gets
             let c = rng.pick(&clients).clone();
